@@ -1,7 +1,7 @@
 (* C19 — Division conserves molecules and volume; lineage records are consistent (splitters). *)
-From Coq Require Import ZArith Reals List Bool Arith.
+From Coq Require Import ZArith QArith Reals List Bool Arith Sorted.
 From BS Require Import Base.Arith Model.Queue Model.Term Model.Propensity Model.Interface Model.Rules Model.Random Model.SSA Model.Splitters Model.Lineage Model.Worklist
-                       Proofs.SplitProofs Proofs.SSAProofs Proofs.LineageProofs Proofs.LineageIdle Proofs.WorklistProofs Proofs.WorklistProvenance.
+                       Proofs.SplitProofs Proofs.SSAProofs Proofs.LineageProofs Proofs.LineageIdle Proofs.WorklistProofs Proofs.WorklistProvenance Proofs.CellPaths Proofs.LineageFirstRow Proofs.PairProvenance Proofs.LineageConservation.
 Import ListNotations.
 Local Open Scope R_scope.
 
@@ -132,6 +132,87 @@ Theorem C19_lineage_division_conserves :
                      data_of s (truncate_lt ArithR ts (cs_time c)) st.
 Proof. exact lineage_division_conserves. Qed.
 
+(* Without rules on species (any arithmetic, stream, model, fuel): the reported rows of every cell that has a mother are linked by
+   reaction paths that START from the state the mother's splitter made for it of the mother's last reported state -- nothing but the
+   partition and the cell's own reactions lies between a mother's last row and any row of her daughters. *)
+Theorem C19_daughter_rows_from_partition :
+  forall F (A : Arith F) pi2 eps9 eps7 eps12 (l : lin F), sm_rules (ln_sim l) = [] ->
+  forall cfuel fuel sps ts cells u pos w,
+  simulate_lineage A pi2 eps9 eps7 eps12 cfuel fuel l sps ts cells u pos = Done w ->
+  forall j sc p, nth_error (w_lineage w) j = Some sc -> sz_parent sc = Some p ->
+  exists m tts0 st0 sp upos d,
+    nth_error (w_lineage w) p = Some m /\ data_of m tts0 st0 /\
+    let c := final_cell A tts0 st0 in
+    nth_error sps (Z.to_nat (cs_divided c)) = Some sp /\
+    (d = fst (daughter_cells A c sp u upos) \/ d = snd (daughter_cells A c sp u upos)) /\
+    chain A (ln_sim l) (cs_x d) (sz_rows sc).
+Proof. exact @daughter_rows_from_partition. Qed.
+
+(* ... and that state is what the cell reports first (reals, no rules on species, uniforms in (0,1], non-negative propensities): simulated
+   on a grid whose first time is the cell's own time -- which is how a daughter is simulated, from her mother's last reported time -- a
+   cell's FIRST row is exactly the state it was handed; nothing precedes it, also when it divides or dies at its very first check. *)
+Theorem C19_first_row_is_birth_state :
+  forall (l : lin R) pi2 eps9 eps7 (u : nat -> R), sm_rules (ln_sim l) = [] -> (forall n, 0 < u n <= 1) ->
+  (forall x p V t, 0 <= array_sum ArithR (lin_props ArithR l x p V t)) ->
+  forall fuel t0 t1 ts' t_init V V_init x0 pos st, t0 <= t1 -> t0 <= last (t0 :: t1 :: ts') t0 ->
+  lssa_simulate ArithR pi2 eps9 eps7 fuel l (t0 :: t1 :: ts') t0 t_init V V_init x0 u pos = Done st ->
+  exists rest, ls_rows st = x0 :: rest.
+Proof. exact first_row_is_birth_state. Qed.
+
+(* The two daughters a recorded cell lists come from ONE call of its splitter (any arithmetic, stream, model, fuel): they are the
+   single-cell simulations, on the same part of the grid, of the first and of the second cell of one partition of its last reported state. *)
+Theorem C19_daughter_pairs_from_one_partition :
+  forall F (A : Arith F) pi2 eps9 eps7 eps12 cfuel fuel (l : lin F) sps ts cells u pos w,
+  simulate_lineage A pi2 eps9 eps7 eps12 cfuel fuel l sps ts cells u pos = Done w ->
+  forall p m a b, nth_error (w_lineage w) p = Some m -> sz_daughters m = Some (a, b) ->
+  exists tts0 st0 sp upos pos1 pos2 st1 st2 sa sb,
+    data_of m tts0 st0 /\
+    let c := final_cell A tts0 st0 in
+    let tts := truncate_lt A ts (cs_time c) in
+    (0 <= cs_divided c)%Z /\ nth_error sps (Z.to_nat (cs_divided c)) = Some sp /\
+    nth_error (w_lineage w) a = Some sa /\ nth_error (w_lineage w) b = Some sb /\
+    cell_simulate A pi2 eps9 eps7 fuel l tts (fst (daughter_cells A c sp u upos)) u pos1 = Done st1 /\
+    cell_simulate A pi2 eps9 eps7 fuel l tts (snd (daughter_cells A c sp u upos)) u pos2 = Done st2 /\
+    data_of sa tts st1 /\ data_of sb tts st2.
+Proof. exact @lineage_pairs_born. Qed.
+
+(* The property in observable terms (reals; no rules on species; uniforms in (0,1]; non-negative propensities; strictly increasing grid): in a
+   simulated lineage, whenever a cell's last reported time is one of the requested times, the FIRST reported rows of its two daughters are
+   a partition of its LAST reported row -- species in its splitter's perfect and binomial lists sum to the mother's count, all others
+   are copied to both -- for every stream, model, number of initial cells and fuel. *)
+Theorem C19_lineage_rows_conserved :
+  forall (l : lin R) pi2 eps9 eps7 eps12 (u : nat -> R), sm_rules (ln_sim l) = [] -> (forall n, 0 < u n <= 1) ->
+  (forall x p V t, 0 <= array_sum ArithR (lin_props ArithR l x p V t)) ->
+  forall cfuel fuel sps ts cells pos w, StronglySorted Rlt ts ->
+  simulate_lineage ArithR pi2 eps9 eps7 eps12 cfuel fuel l sps ts cells u pos = Done w ->
+  forall p m a b, nth_error (w_lineage w) p = Some m -> sz_daughters m = Some (a, b) ->
+  exists tts0 st0 sp sa sb,
+    data_of m tts0 st0 /\ nth_error (w_lineage w) a = Some sa /\ nth_error (w_lineage w) b = Some sb /\
+    let c := final_cell ArithR tts0 st0 in
+    nth_error sps (Z.to_nat (cs_divided c)) = Some sp /\
+    (In (cs_time c) ts -> NoDup (sp_perfect sp ++ sp_binomial sp) -> (forall i, In i (sp_perfect sp ++ sp_binomial sp) -> (i < length (cs_x c))%nat) ->
+     exists xa ra xb rb, sz_rows sa = xa :: ra /\ sz_rows sb = xb :: rb /\
+       (forall i, In i (sp_perfect sp ++ sp_binomial sp) -> gR xa i + gR xb i = gR (cs_x c) i) /\
+       (forall i, (i < length (cs_x c))%nat -> ~ In i (sp_perfect sp ++ sp_binomial sp) -> gR xa i = gR (cs_x c) i /\ gR xb i = gR (cs_x c) i)).
+Proof. exact lineage_rows_conserved. Qed.
+
+(* Non-vacuity of the whole-lineage theorems: the worklist model, evaluated inside Coq over exact rationals, on a cell with counts (6, 3) and
+   volume 1 that divides by a time rule (threshold 1) with a splitter that halves species 0 perfectly and species 1 binomially: three
+   recorded cells, mutual links, the daughters' first rows (3, 0) and (3, 3) sum to the mother's last row (6, 3), their volumes to hers. *)
+Definition ex_lin : lin Q :=
+  mkLin (mkSimulation (mkSim [] [[]; []] [[]; []] [1%Q] 2) [] [] (1#2)%Q 0%Q false [6%Q; 3%Q]) [] [DRTime 0 None] [] [] [] [].
+Definition ex_run :=
+  simulate_lineage ArithQ 6%Q (1#1000000000)%Q (1#10000000)%Q (1#1000000000000)%Q 20 200 ex_lin [mkSplitter 2 [0%nat] [1%nat] 0%Q]
+                   [0; 1#2; 1; 3#2; 2; 5#2]%Q [mkCell 0%Q 0%Q 1%Q 1%Q [6%Q; 3%Q] (-1)%Z (-1)%Z] (fun _ => (1#2)%Q) 0.
+Example C19_lineage_nonvacuous :
+  match ex_run with
+  | Done w => map (fun s => (sz_times s, sz_rows s, sz_vols s, sz_parent s, sz_daughters s)) (w_lineage w)
+  | _ => []
+  end = [([0; 1#2; 1; 3#2], [[6; 3]; [6; 3]; [6; 3]; [6; 3]], [1; 1; 1; 1], None, Some (1%nat, 2%nat));
+         ([3#2; 2; 5#2], [[3; 0]; [3; 0]; [3; 0]], [1#2; 1#2; 1#2], Some 0%nat, None);
+         ([3#2; 2; 5#2], [[3; 3]; [3; 3]; [3; 3]], [1#2; 1#2; 1#2], Some 0%nat, None)]%Q.
+Proof. vm_compute. reflexivity. Qed.
+
 (* Not mechanised (C19_partial): that a Bernoulli sum has the Binomial(n,p) law; custom partition functions and custom rule classes -- decided by the harness on simulated lineages. *)
 
 Print Assumptions C19_general_splitter.
@@ -145,3 +226,7 @@ Print Assumptions C19_idle_cell_never_fires.
 Print Assumptions C19_lineage_links_mutual.
 Print Assumptions C19_daughters_born_from_mother.
 Print Assumptions C19_lineage_division_conserves.
+Print Assumptions C19_daughter_rows_from_partition.
+Print Assumptions C19_first_row_is_birth_state.
+Print Assumptions C19_daughter_pairs_from_one_partition.
+Print Assumptions C19_lineage_rows_conserved.
